@@ -369,10 +369,13 @@ class Exec:
         self.cbs = []
         return n
 
-    def _sample(self, c, ts, data):
+    def _rec(self, c, ts, data):
         names = self.refnames.get(c, [])
-        rec = {'c': c, 'ts': ts if isinstance(ts, int) and 0 <= ts < (1 << 31) else -1,
-               'vals': [canon(data.get(n)) for n in names], 'nkeys': len(data)}
+        return {'c': c, 'ts': ts if isinstance(ts, int) and 0 <= ts < (1 << 31) else -1,
+                'vals': [canon(data.get(n)) for n in names], 'nkeys': len(data)}
+
+    def _sample(self, c, ts, data):
+        rec = self._rec(c, ts, data)
         self.gots.append(rec)
         if self.synccs:
             self.ev.append({'e': 'sample', 's': rec})
@@ -553,7 +556,14 @@ class Exec:
         from cflib.crazyflie.syncLogger import SyncLogger
         self.synccs = list(cs)
         cfgs = [self.lcs[c - 1] for c in cs]
-        self.logger = SyncLogger(self.cf, cfgs if len(cfgs) > 1 else cfgs[0])
+        self.logger = lg = SyncLogger(self.cf, cfgs if len(cfgs) > 1 else cfgs[0])
+        orig_cb = lg._log_callback
+
+        def log_callback(ts, data, blk):          # observer: exactly what the logger's data callback receives
+            c = self.lcs.index(blk) + 1 if blk in self.lcs else 0
+            self.ev.append({'e': 'lsample', 's': self._rec(c, ts, data)})
+            return orig_cb(ts, data, blk)
+        lg._log_callback = log_callback           # connect()/disconnect() register/remove this very object
 
         def consumer():
             self.ev.append({'e': 'sbegin'})
@@ -569,9 +579,7 @@ class Exec:
             for entry in self.logger:
                 ts, data, blk = entry
                 c = self.lcs.index(blk) + 1 if blk in self.lcs else 0
-                names = self.refnames.get(c, [])
-                self.ev.append({'e': 'yield', 's': {'c': c, 'ts': ts if isinstance(ts, int) and 0 <= ts < (1 << 31) else -1,
-                                                    'vals': [canon(data.get(n)) for n in names], 'nkeys': len(data)}})
+                self.ev.append({'e': 'yield', 's': self._rec(c, ts, data)})
             self.ev.append({'e': 'sstop'})
         self.consumer = self.s.spawn(consumer, 'consumer')
 
@@ -888,9 +896,34 @@ def sc_sync(tier, rng):
 
 
 # --------------------------------------------------------------------------- running and judging
+def _whatif_fix():
+    """Developer aid (VERIF_C05_WHATIF=fix, never set by the registered commands): apply the two minimal patches
+    proposed in reports/C05.md in memory, to see that the check is green with them."""
+    import cflib.crazyflie.log as lg
+    _patch_source(lg.Log, 'add_config', "            logconf.add_variable(name, var.ctype)\n",
+                  "            logconf.add_variable(name, var.ctype)\n        logconf.default_fetch_as = []\n")
+    _patch_source(lg.LogConfig, '_setup_log_elements',
+                  "                pk.data.append(struct.pack('<B',\n                                           var.get_storage_and_fetch_byte()))\n"
+                  "                pk.data.append(struct.pack('<I', var.address))\n",
+                  "                if pk.available_data_size() < 5:\n                    return False, i\n"
+                  "                pk.data.append(var.get_storage_and_fetch_byte())\n"
+                  "                pk.data.extend(struct.pack('<I', var.address))\n")
+    _patch_source(lg.LogConfig, '_setup_log_elements',
+                  "                pk.data.append(var.get_storage_and_fetch_byte())\n                if self.useV2:",
+                  "                if pk.available_data_size() < 1:\n                    return False, i\n"
+                  "                pk.data.append(var.get_storage_and_fetch_byte())\n                if self.useV2:")
+
+
+_inited = []
+
+
 def _init():
     vsched.load_cflib()
     sd.install()
+    if not _inited:
+        _inited.append(1)
+        if os.environ.get('VERIF_C05_WHATIF') == 'fix':
+            _whatif_fix()
 
 
 def _exec_job(job):
